@@ -4,7 +4,7 @@
    transcribed independently; orient_ok / orient_okb), Legalizer.v. *)
 From Coq Require Import List ZArith Lia Bool.
 Import ListNotations.
-Require Import CV.Orient CV.FreeSpace CV.Circuit CV.OrientProofs CV.Legalizer CV.LegalizerProofs.
+Require Import CV.Orient CV.FreeSpace CV.Circuit CV.OrientProofs CV.Legalizer CV.LegalizerProofs CV.LegalizerAbacusProofs CV.LegalizerSoundProofs.
 Local Open Scope Z_scope.
 
 (* [F, finite] the code's table is the documented one: SAME = the row's orientation,
@@ -36,10 +36,120 @@ Theorem c04_legalize_keeps_polarity : forall c order c',
   legalize_circuit c order = LegOk c' -> rows c' = rows c /\ Forall2 same_frame (cells c) (cells c').
 Proof. exact legalize_circuit_frame. Qed.
 
-(* [P] orientation after legalization.  Full statement (NOT proved for the raw model):
-     legalize_circuit c order = LegOk c' -> orient_ok c c'
-   (for circuits whose rows are pairwise disjoint).  It is validated on every case of
-   the correspondence: orient_okb is evaluated on the model's and on the C++'s result. *)
+(* [F on the stated domain; P for C04 as a whole] orientation after legalization, RAW model,
+   every cell order: on circuits of the domain std_design (rows of one positive height,
+   pairwise disjoint, not turned; movable cells of positive width, height a positive
+   multiple of the row height, not turned unless without polarity) whose rows have a known
+   orientation and where rows sharing a bottom edge have the same orientation, every
+   movable cell with a polarity ends with the documented orientation of the row under its
+   bottom-left corner (never INVALID) and every cell without polarity keeps its own.
+   The last hypothesis cannot be dropped: c04_sidebyside_orientation_refuted.  It is also
+   validated on every case of the correspondence (orient_okb on the model's and the C++'s
+   result). *)
+Theorem c04_legalize_circuit_orient_ok : forall c order c' rh,
+  std_design c rh -> (forall r, In r (rows c) -> ro r <> oUNKNOWN) -> row_orient_by_y c ->
+  legalize_circuit c order = LegOk c' -> orient_ok c c'.
+Proof. exact legalize_circuit_orient_ok. Qed.
+
+(* [F on the stated domain] the same without any assumption on side-by-side rows when every
+   movable cell is exactly one row high (only the Abacus pass places cells: the orientation
+   comes from the very segment the cell sits in) *)
+Theorem c04_legalize_circuit_rowhigh_orient_ok : forall c order c' rh,
+  rowhigh_design c rh -> (forall r, In r (rows c) -> ro r <> oUNKNOWN) ->
+  legalize_circuit c order = LegOk c' -> orient_ok c c'.
+Proof. exact legalize_circuit_rowhigh_orient_ok. Qed.
+
+(* [R] two rows side by side with different orientations (N | S, then FS | FN above) and a
+   cell two rows high with polarity SAME: the Tetris pass reads the orientation from the
+   first segment at the cell's bottom y (TetrisLegalizer: getOrientation(cell,
+   closestRow(y))) and not from the segment the cell is put on; the returned placement is
+   legal but the cell sits on the S row with orientation N (the C++ returns the same:
+   harness case `LG 4 0 10 0 2 0 10 20 0 2 1 0 10 2 4 5 10 20 2 4 4 1 14 0 3 4 0 1 0 1 0 0 0 0 3 0`
+   gives `OK 14 0 0`) *)
+Theorem c04_sidebyside_orientation_refuted :
+  exists c', std_design w_sidebyside 2 /\ (forall r, In r (rows w_sidebyside) -> ro r <> oUNKNOWN) /\
+             legalize_circuit w_sidebyside [0%nat] = LegOk c' /\ legal c' /\ orient_okb w_sidebyside c' = false.
+Proof. exact sidebyside_orientation_refuted. Qed.
+
+(* non-vacuity of the two circuit-level theorems: a circuit of the domain (alternating
+   N / FS rows) with a SAME, an OPPOSITE and an ANY cell, one of them two rows high *)
+Definition ex_c04_circuit : circuit :=
+  {| rows := [ {| rr := {| minX := 0; maxX := 10; minY := 0; maxY := 2 |}; ro := oN |};
+               {| rr := {| minX := 0; maxX := 10; minY := 2; maxY := 4 |}; ro := oFS |} ];
+     cells := [ {| c_x := 3; c_y := 1; c_w := 2; c_h := 4; c_o := oFN; c_pol := pSAME; c_fixed := false; c_obs := true |};
+                {| c_x := 5; c_y := 3; c_w := 3; c_h := 2; c_o := oS; c_pol := pOPPOSITE; c_fixed := false; c_obs := true |};
+                {| c_x := 5; c_y := 3; c_w := 2; c_h := 3; c_o := oW; c_pol := pANY; c_fixed := false; c_obs := true |} ] |}.
+Example c04_legalize_circuit_nonvacuous :
+  std_design ex_c04_circuit 2 /\ (forall r, In r (rows ex_c04_circuit) -> ro r <> oUNKNOWN) /\
+  row_orient_by_y ex_c04_circuit /\
+  exists c', legalize_circuit ex_c04_circuit [0%nat; 1%nat; 2%nat] = LegOk c' /\
+             map c_o (cells c') <> map c_o (cells ex_c04_circuit).
+Proof.
+  split; [|split; [|split]].
+  - split; [lia|]. split; [|split; [|split]].
+    + intros r [<-|[<-|[]]]; reflexivity.
+    + apply CircuitProofs.pairwise_disjointb_spec. vm_compute. reflexivity.
+    + intros r [<-|[<-|[]]]; reflexivity.
+    + intros k Hk. vm_compute in Hk. destruct Hk as [<-|[<-|[<-|[]]]].
+      * split; [vm_compute; reflexivity|]. split; [exists 2%nat; split; [lia|vm_compute; reflexivity]|left; reflexivity].
+      * split; [vm_compute; reflexivity|]. split; [exists 1%nat; split; [lia|vm_compute; reflexivity]|left; reflexivity].
+      * split; [vm_compute; reflexivity|]. split; [exists 1%nat; split; [lia|vm_compute; reflexivity]|right; reflexivity].
+  - intros r [<-|[<-|[]]]; discriminate.
+  - intros r r' [<-|[<-|[]]] [<-|[<-|[]]]; cbn; intros H; try reflexivity; discriminate.
+  - eexists. split; [vm_compute; reflexivity|]. vm_compute. intros H. discriminate H.
+Qed.
+
+
+(* [F] C04 for the Abacus pass of the RAW model, every list of row segments, every list
+   of cells of positive width: a placed cell lies in a segment r of its height (the one
+   it was recorded in, index i of sort_rows rows0) and its orientation is
+   get_orientation of that segment: never INVALID, the cell's own for polarity ANY, the
+   table entry whenever the table prescribes one *)
+Theorem c04_abacus_orientation_valid : forall rows0 cells,
+  widths_positive cells ->
+  let rows := sort_rows rows0 in
+  let rcs := abacus_rowcells rows0 cells in
+  forall ci c x y o, nth_error cells ci = Some c ->
+    nth_error (abacus_run rows0 cells) ci = Some (Some (x, y, o)) ->
+    exists i r rc, nth_error rows i = Some r /\ nth_error rcs i = Some rc /\ In ci rc /\
+                   in_segment r c x y /\
+                   get_orientation rows c (Z.of_nat i) = Some o /\ o <> oINVALID /\
+                   (cpol c = pANY -> o = cor c) /\
+                   (cell_orientation_in_row (cpol c) (ro r) <> oUNKNOWN ->
+                    o = cell_orientation_in_row (cpol c) (ro r)) /\
+                   o = seg_orientation c r.
+Proof. exact abacus_orientation_valid. Qed.
+
+(* [F] the same against the documented table `prescribed` (transcribed independently of
+   the code): a polarised cell placed in a segment of known orientation has exactly the
+   documented orientation of that segment, which is not a forbidden one *)
+Theorem c04_abacus_orientation_prescribed : forall rows0 cells,
+  widths_positive cells ->
+  let rows := sort_rows rows0 in
+  let rcs := abacus_rowcells rows0 cells in
+  forall ci c x y o, nth_error cells ci = Some c ->
+    nth_error (abacus_run rows0 cells) ci = Some (Some (x, y, o)) ->
+    exists i r rc, nth_error rows i = Some r /\ nth_error rcs i = Some rc /\ In ci rc /\
+                   in_segment r c x y /\
+                   (cpol c = pANY -> o = cor c) /\
+                   (cpol c <> pANY -> ro r <> oUNKNOWN ->
+                    prescribed (cpol c) (ro r) = Some (Some o) /\ o <> oINVALID).
+Proof. exact abacus_orientation_prescribed. Qed.
+
+(* non-vacuity: SAME on an N row, ANY (kept S), NW on an N row, OPPOSITE on an FS row
+   (gets N), SAME on an FS row; the NW cell was refused by the FS segments *)
+Example c04_abacus_nonvacuous :
+  let segs := [ {| rr := {| minX := 6; maxX := 12; minY := 2; maxY := 4 |}; ro := oFS |};
+                {| rr := {| minX := 0; maxX := 5; minY := 0; maxY := 2 |}; ro := oN |};
+                {| rr := {| minX := 0; maxX := 4; minY := 2; maxY := 4 |}; ro := oFS |} ] in
+  let cs := [ {| cw := 3; ch := 2; cpol := pSAME; ctx := 1; cty := 0; cor := oN |};
+              {| cw := 3; ch := 2; cpol := pANY; ctx := 1; cty := 0; cor := oS |};
+              {| cw := 2; ch := 2; cpol := pNW; ctx := 7; cty := 3; cor := oN |};
+              {| cw := 4; ch := 2; cpol := pOPPOSITE; ctx := 8; cty := 2; cor := oN |};
+              {| cw := 2; ch := 2; cpol := pSAME; ctx := 9; cty := 2; cor := oN |} ] in
+  widths_positive cs /\
+  abacus_run segs cs = [Some (0, 0, oN); Some (1, 2, oS); Some (3, 0, oN); Some (6, 2, oN); Some (10, 2, oFS)].
+Proof. split; [repeat constructor|vm_compute; reflexivity]. Qed.
 
 Example c04_nonvacuous :
   cell_orientation_in_row pOPPOSITE oFN = oS /\ cell_orientation_in_row pNW oS = oINVALID /\
@@ -50,3 +160,8 @@ Print Assumptions c04_table_matches_doc.
 Print Assumptions c04_prescribed_is_real.
 Print Assumptions c04_orient_okb_decides.
 Print Assumptions c04_legalize_keeps_polarity.
+Print Assumptions c04_abacus_orientation_valid.
+Print Assumptions c04_abacus_orientation_prescribed.
+Print Assumptions c04_legalize_circuit_orient_ok.
+Print Assumptions c04_legalize_circuit_rowhigh_orient_ok.
+Print Assumptions c04_sidebyside_orientation_refuted.
